@@ -74,7 +74,8 @@ def job_list(thorough, rng):
             for with_x in (True, False):
                 if name == 'interp_pts' and not with_x:
                     continue
-                scen = ['cold', 'warm']
+                # 'foreign': the caches of the shared fitter were filled by OTHER methods before the concurrent calls start
+                scen = ['cold', 'warm', 'foreign']
                 if 'poly_order' in e['params'] or name in ('pspline_iasls', 'iasls'):
                     scen.append('other-poly')
                 if 'num_knots' in e['params']:
@@ -182,6 +183,18 @@ def make_obj(cls, job, x, z):
 def prepare(obj, job, y, kw):
     """runs un-scheduled preparatory calls according to the scenario"""
     if job['scenario'] == 'cold':
+        return
+    if job['scenario'] == 'foreign':
+        yy = y[0] if job['name'] == 'collab_pls' else y
+        with warnings.catch_warnings():
+            warnings.simplefilter('ignore')
+            with np.errstate(all='ignore'):
+                if job['two_d']:
+                    obj.poly(yy, poly_order=(3, 2))
+                    obj.pspline_asls(yy, num_knots=(7, 6), max_iter=1)
+                else:
+                    obj.poly(yy, poly_order=3)
+                    obj.pspline_asls(yy, num_knots=9, max_iter=1)
         return
     name, kw2 = other_kwargs(job, kw)
     with warnings.catch_warnings():
@@ -375,9 +388,9 @@ def shared_array_writes(ctx, jobs, dis):
     from pybaselines import Baseline, Baseline2D
     seen = set()
     for job in jobs:
-        if job['scenario'] != 'warm' or not job['with_x']:
+        if job['scenario'] not in ('warm', 'foreign') or not job['with_x']:
             continue
-        key = (job['two_d'], job['name'], json.dumps(job['kw'], sort_keys=True, default=str))
+        key = (job['two_d'], job['name'], json.dumps(job['kw'], sort_keys=True, default=str), job['scenario'])
         if key in seen:
             continue
         seen.add(key)
@@ -517,7 +530,12 @@ def trace_checks(ctx, jobs, dis):
         if evp:
             toks = [ACT[e] for e in evp]
             p1 = object.__getattribute__(obj, '_polynomial')
-            if not job['two_d']:
+            if p1 is None:
+                # the call touched the shared polynomial cache although the object holds none afterwards: no proven program does that
+                dis.append(Disagreement('c04.trace', 'model:poly-access-without-cache', f'{job["name"]} ({"2-D" if job["two_d"] else "1-D"}, {job["scenario"]}): the call '
+                                        f'accesses the shared polynomial cache ({[ACT[e] for e in evp][:6]}) but leaves no helper on the object; no protocol model covers this',
+                                        {'job': job}, False))
+            elif not job['two_d']:
                 k1 = int(object.__getattribute__(p1, 'poly_order'))
                 if st0['poly'] is None:
                     init = 'cold'
